@@ -328,9 +328,46 @@ package mqtt
 // error returned by the publish hook chain during this handler run (nil if not called / no error)
 // verif:ghost var publishErr error
 
-// verif:func mqtt.IsValidFilter trusted
-//@ ensures forPublish ==> (r0 <==> validPub(filter))
-//@ ensures !forPublish ==> (r0 <==> validSub(filter))
+// ---- C30: filter and topic-name validation ----
+// idx(s, c) is the position of the first byte c in s, or -1 (spec/stdlib.contracts); 47 is '/', 43 '+', 35 '#'
+// level d of a filter, for the first two levels (all that validation looks at)
+// verif:def lvl0(f string) string = idx(f, 47) == -1 ? f : f[0:idx(f, 47)]
+// verif:def rest1(f string) string = f[idx(f, 47)+1:]
+// verif:def lvl1(f string) string = idx(rest1(f), 47) == -1 ? rest1(f) : rest1(f)[0:idx(rest1(f), 47)]
+// verif:func mqtt.isolateParticle
+//@ requires 0 <= d && d < 4611686018427387904
+//@ ensures d0: d == 0 ==> particle == lvl0(filter) && (hasNext <==> idx(filter, 47) >= 0)
+//@ ensures d1-none: d == 1 && idx(filter, 47) == -1 ==> !hasNext && particle == filter
+//@ ensures d1: d == 1 && idx(filter, 47) >= 0 ==> particle == lvl1(filter) && (hasNext <==> idx(rest1(filter), 47) >= 0)
+// verif:loop mqtt.isolateParticle 1
+//@ invariant 0 <= i && i <= d + 1 && next == 0 && end >= -1
+//@ invariant i == 0 ==> filter == filter0 && end > -1
+//@ invariant d == 0 && i == 1 ==> particle == lvl0(filter0) && (hasNext <==> idx(filter0, 47) >= 0)
+//@ invariant d >= 1 && i == 1 ==> end == idx(filter0, 47) && (end == -1 ==> !hasNext && particle == filter0) && (end >= 0 ==> filter == rest1(filter0))
+//@ invariant d == 1 && i == 2 ==> idx(filter0, 47) >= 0 && particle == lvl1(filter0) && (hasNext <==> idx(rest1(filter0), 47) >= 0)
+//@ decreases d + 1 - i
+
+// the property's reading of a valid subscription filter (C30), over the bytes of the string
+// '#' only as the whole last level: the first '#' is the last byte and follows a '/' (or is the whole filter)
+// verif:def hashOK(f string) bool = idx(f, 35) == -1 || (idx(f, 35) == len(f) - 1 && (idx(f, 35) == 0 || f[idx(f, 35) - 1] == 47))
+// '+' only as a whole level (neighbouring bytes are named by a second bound variable so that instantiating a clause creates no new index term)
+// verif:def plusOK(f string) bool = (forall i int, j int :: 0 <= j && j + 1 == i && i < len(f) && f[i] == 43 ==> f[j] == 47) && (forall i int, j int :: 0 <= i && i + 1 == j && j < len(f) && f[i] == 43 ==> f[j] == 47)
+// verif:def noWild(s string) bool = idx(s, 43) == -1 && idx(s, 35) == -1
+// a $share filter (first level "$share" in any letter case) has a non-empty group without wildcards, then a non-empty filter
+// verif:def shareOK(f string) bool = foldEq(lvl0(f), "$SHARE") ==> idx(f, 47) >= 0 && idx(rest1(f), 47) > 0 && noWild(lvl1(f)) && len(rest1(f)) > idx(rest1(f), 47) + 1
+// verif:def sysPrefix(f string) bool = len(f) >= 4 && foldEq(f[0:4], "$SYS")
+
+// verif:func mqtt.IsValidFilter
+// the uninterpreted names the handlers use for "IsValidFilter said yes" (the function is deterministic)
+//@ axiom forPublish ==> (r0 <==> validPub(filter))
+//@ axiom !forPublish ==> (r0 <==> validSub(filter))
+//@ ensures C30-empty-filter-rejected: !forPublish && len(filter) == 0 ==> !r0
+//@ ensures C30-hash-only-as-the-whole-last-level: !forPublish && r0 ==> hashOK(filter)
+//@ ensures C30-plus-only-as-a-whole-level: !forPublish && r0 ==> plusOK(filter)
+//@ ensures C30-share-filter-has-group-and-filter: !forPublish && r0 ==> shareOK(filter)
+//@ ensures C30-every-valid-filter-accepted: !forPublish && len(filter) > 0 && hashOK(filter) && plusOK(filter) && shareOK(filter) ==> r0
+//@ ensures C30-publish-topic-without-wildcards-and-sys: forPublish && r0 ==> noWild(filter) && !sysPrefix(filter)
+//@ ensures C30-every-valid-publish-topic-accepted: forPublish && noWild(filter) && !sysPrefix(filter) ==> r0
 
 // verif:func mqtt.Hooks.OnACLCheck trusted
 //@ ensures r0 == aclOK(cl, topic, write)
